@@ -172,6 +172,10 @@ def fork_call(fn, *args, **kwargs):
 # --------------------------------------------------------------------------
 # zygote: every pristine child of a worker is forked from a process whose heap never changes
 
+def zygote_noop():
+    return 0
+
+
 class Zygote(object):
     """A child of the worker, forked right after the imports, that does nothing but fork
     grandchildren on request.  The worker's own heap changes all the time (reference caches,
@@ -201,6 +205,10 @@ class Zygote(object):
                 os._exit(0)
         os.close(self.req_r)
         os.close(self.st_w)
+        # two dummy requests: the zygote's own (tiny) allocation pattern reaches its steady state,
+        # so the first real program sees the same heap as the thousandth
+        for _ in range(2):
+            self.call('core', 'zygote_noop', [], 10)
 
     # ---- zygote side
     def _serve(self):
@@ -350,6 +358,33 @@ class Counters(dict):
 # --------------------------------------------------------------------------
 # worker pool (parent side)
 
+_noaslr = []
+
+
+def no_aslr_prefix():
+    """Command prefix that starts a process without address-space randomisation (so that what
+    depends on object addresses -- id()-keyed caches, address reuse after garbage collection --
+    is the same in every worker and replays); empty when the platform does not allow it."""
+    if not _noaslr:
+        import platform
+        import shutil
+        pre = []
+        exe = shutil.which('setarch')
+        if exe:
+            cand = [exe, platform.machine(), '-R']
+            try:
+                a = subprocess.run(cand + [PYTHON, '-c', 'print(id(object()))'], stdout=subprocess.PIPE,
+                                   stderr=subprocess.DEVNULL, timeout=30)
+                b = subprocess.run(cand + [PYTHON, '-c', 'print(id(object()))'], stdout=subprocess.PIPE,
+                                   stderr=subprocess.DEVNULL, timeout=30)
+                if a.returncode == 0 and b.returncode == 0 and a.stdout == b.stdout and a.stdout.strip():
+                    pre = cand
+            except Exception:
+                pre = []
+        _noaslr.append(pre)
+    return list(_noaslr[0])
+
+
 class Worker(object):
     def __init__(self, hashclass, hashseed=None):
         self.hashclass = hashclass
@@ -361,7 +396,7 @@ class Worker(object):
         env['PYTHONPYCACHEPREFIX'] = os.path.join(VERIF_DIR, '.no-pycache')
         env['PYTHONDONTWRITEBYTECODE'] = '1'
         self.proc = subprocess.Popen(
-            [PYTHON, '-B', os.path.join(SIM_DIR, 'worker.py')],
+            no_aslr_prefix() + [PYTHON, '-B', os.path.join(SIM_DIR, 'worker.py')],
             stdin=subprocess.PIPE, stdout=subprocess.PIPE, env=env, cwd=VERIF_DIR)
         self.busy = None
         self.buf = b''
